@@ -677,8 +677,8 @@ Section Model.
       compile_from o E n M (map (fun mp => CPS (fst mp) (snd mp)) l) i j = kmul co (rowfac l i) (M i j).
     Proof.
       intros Hi Hj. revert M; induction l as [|[m p] l IH]; intros M.
-      - simpl. ring.
-      - simpl map. rewrite compile_from_cons, IH. cbn [cstep comp_mat rowfac fst snd].
+      - change (M i j = kmul co (k1 co) (M i j)). ring.
+      - cbn [map]. rewrite compile_from_cons, IH. cbn [cstep comp_mat rowfac fst snd].
         rewrite tab_spec by assumption. rewrite (mmul_phase_l (o:=co)) by assumption.
         destruct (i =? m); ring.
     Qed.
